@@ -192,7 +192,10 @@ def run(tier, seed, replay):
               ("power", {}), ("power", {"solver": "solve"}), ("power", {"solver": "spsolve"}), ("power", {"solver": "spsolve", "use_rcm": True}),
               ("power", {"solver": "spsolve", "use_rcm": True, "use_wbm": True}), ("power", {"solver": "spsolve", "use_wbm": True}),
               ("power", {"solver": "gmres", "use_precond": True}), ("power", {"solver": "gmres", "use_precond": True, "use_rcm": True, "use_wbm": True}),
-              ("power-gmres", {"use_precond": True, "use_rcm": True}), ("propagator", {})]
+              ("power-gmres", {"use_precond": True, "use_rcm": True}), ("propagator", {}),
+              # settings under which the inverse iteration may not converge: either an exception or a fixed point
+              ("power", {"solver": "lstsq"}), ("power", {"power_maxiter": 2, "power_eps": 0.05}), ("power", {"power_maxiter": 3, "power_eps": 0.3}),
+              ("power", {"power_maxiter": 1}), ("propagator", {"propagator_max_iter": 2})]
     loose = {"gmres", "lgmres", "bicgstab"}
     nsys = 10 if tier == "quick" else 40
     for si in range(nsys):
